@@ -2,8 +2,8 @@
 SPECIFICATION EnumSpec
 CONSTANTS
   NDocs = 3
-  Vals = {1, 2, 3}
-  Sizes = {0, 1, 2, 3, 4, 5}
+  Vals = {1, 2}
+  Sizes = {1, 2, 5}
   Pages <- PagesOne
 INVARIANTS MergeLemma
 CHECK_DEADLOCK FALSE
